@@ -293,7 +293,11 @@ CHECKS = {
              "TLC replays each sequence: exactly the expected objects are released by each call, with the matching "
              "deallocator (release codes are read from the generated release function), handles end up as specified, "
              "no object is left alive. A Fortran driver over std::string results and arguments, std::vector in/out, "
-             "allocatable char* results and class handles must run clean under ASan and LeakSanitizer.",
+             "allocatable char* results and class handles must run clean under ASan and LeakSanitizer. The Python front has "
+             "its own specification PyOwn.tla (variables, aliases, wrapper objects that own or borrow; TLC checks release "
+             "at most once, library objects kept, no leak, no dangling variable) and every Python statement sequence of "
+             "length <= 3 (thorough 4) over two variables is run on the compiled extension and replayed by TLC "
+             "(Trace_PyOwn) against the library's constructor / destructor / pool / free events.",
         note="Trusted: TLC, GCC 12 sanitizers, the driver's own correct-caller guards (sequences it cuts short are not "
              "judged), rt/vt.c. Python capsule destructors are not exercised here (see C03).",
     ),
